@@ -3,6 +3,7 @@ C18 — Counters, time-averaged occupancy and cycle times are truthful.
 (store part: the time-weighted level bookkeeping)
 -/
 import FsVerif.Proofs.PosExtra
+import FsVerif.Proofs.BufExtra
 namespace FsVerif.Props.C18
 open FsVerif PosStore
 
@@ -26,5 +27,20 @@ theorem pos_final_average {s : PosStore} (h : Reachable s) (hf : s.cfg.filter = 
 
 example : (run (init { cap := some 2 }) [.reservePut 0 0, .put 0 0 ⟨1, 0⟩, .adv 5, .reserveGet 0 0 .always, .get 0 1, .adv 3]).area = 5 := by
   decide
+
+
+/-! ### BufferStore / Buffer: level = in transit + ready -/
+
+theorem buf_level_integral {s : BufStore} (h : BufStore.ReachD s) :
+    s.lastLevel = s.transit.length + s.ready.length ∧ s.lastChange ≤ s.now ∧
+    s.wsum + s.lastLevel * (s.now - s.lastChange) = s.area := by
+  have := (BufStore.reachD_full h).time
+  exact ⟨this.level, this.change, this.integral⟩
+
+/-- `Buffer.update_final_buffer_avg_content(T)` with `T = now`: afterwards the weighted sum IS the
+    integral of the true occupancy over [0, now]. -/
+theorem buf_final {s : BufStore} (h : BufStore.ReachD s) : (s.step .final).1.wsum = s.area := by
+  obtain ⟨h1, h2, h3⟩ := buf_level_integral h
+  simp [BufStore.step, BufStore.final, BufStore.updLevel]; exact h3
 
 end FsVerif.Props.C18
